@@ -376,6 +376,10 @@ func GenJournal(r *RNG, o JGenOpts) (*Journal, []string) {
 		ntx := r.Intn(4)
 		for k := 0; k < ntx && len(openNow) >= 2; k++ {
 			t := JDir{Kind: 't', Date: day, Desc: Pick(r, descs)}
+			if r.Chance(1, 3) {
+				t.Desc = RandDesc(r)
+				tag("desc-random")
+			}
 			nb := 1
 			if r.Chance(1, 4) {
 				nb = r.Range(2, 3)
@@ -607,4 +611,27 @@ func indexOf(xs []string, x string) int {
 		}
 	}
 	return -1
+}
+
+// descWords: the vocabulary of RandDesc. Everything a description may hold except the double quote (the syntax has no escape):
+// printf verbs and lone percent signs, backslashes and escapes as plain text, comment markers, annotation and macro sigils,
+// punctuation of the journal syntax, digits and dates, control characters, wide and combining Unicode.
+var descWords = []string{"rent", "Salary", "x", "100%", "%", "%s", "%d", "%v", "%!", "50%off", "%%", "\\", "\\n", "\\t", "a\\", "'", "''", "`",
+	"#", "# c", "//", "*", "@accrue", "@performance(USD)", "$macro", "{}", "[x]", "(y)", "<z>", ";", ":", ",", ".", "-", "--", "=", "+", "&", "|", "~", "^", "?", "!",
+	"2020-01-01", "open", "close", "price", "balance", "include", "1.50", "-3", "Assets:Bank", "CHF",
+	"\t", "\r", "\n", " ", "  ", "\x00", "\x7f", "\u00a0", "\u200b", "\ufeff", "e\u0301", "Zürich", "Ελλάδα", "Москва", "日本語", "مرحبا", "😀", "\U0001F468\u200d\U0001F469",
+	"averyveryveryveryveryveryveryveryveryveryveryveryveryveryverylongword"}
+
+// RandDesc draws a transaction description: 0-7 words of descWords, joined by single blanks (a tenth of the time without any separator).
+func RandDesc(r *RNG) string {
+	n := r.Intn(8)
+	sep := " "
+	if r.Chance(1, 10) {
+		sep = ""
+	}
+	var parts []string
+	for i := 0; i < n; i++ {
+		parts = append(parts, Pick(r, descWords))
+	}
+	return strings.Join(parts, sep)
 }
